@@ -10,7 +10,7 @@ Notation go := (go no_quirks K toks spn).
 
 (* a run is good when failure leaves a pending error and it did not panic on an unwrap *)
 Definition good (x : outcome * st) : Prop :=
-  (fst x = Err -> alt (snd x) <> None) /\ fst x <> Panic PUnwrapRecovery /\ fst x <> Panic PUnwrapMapErr.
+  (fst x = Err -> alt (snd x) <> None) /\ fst x <> Panic PUnwrapRecovery /\ fst x <> Panic PUnwrapMapErr /\ fst x <> Panic PUnwrapInputRef.
 Definition GD (run : run_t) : Prop := forall m g ctx s, good (run m g ctx s).
 
 Lemma good_ok v s : good (Ok v, s).
@@ -87,7 +87,7 @@ Qed.
 Definition igood {St} (x : ires * St * st) : Prop :=
   match x with
   | (IErr, _, s1) => alt s1 <> None
-  | (IPanic k, _, _) => k <> PUnwrapRecovery /\ k <> PUnwrapMapErr
+  | (IPanic k, _, _) => k <> PUnwrapRecovery /\ k <> PUnwrapMapErr /\ k <> PUnwrapInputRef
   | _ => True
   end.
 
@@ -96,13 +96,13 @@ Proof.
   unfold rep_next. destruct (at_cap c hi); [exact I|].
   pose proof (HG m a ctx s) as G. destruct (run m a ctx s) as [[] s1]; cbn [fst snd] in G; cbn; auto.
   - destruct (lo <=? c); cbn; auto. rewrite alt_rewind. apply G; reflexivity.
-  - destruct G as (_ & G1 & G2). split; intros ->; [apply G1|apply G2]; reflexivity.
+  - destruct G as (_ & G1 & G2 & G3). repeat split; intros ->; [apply G1|apply G2|apply G3]; reflexivity.
 Qed.
 
 Lemma igood_err {St} (c : St) s1 : alt s1 <> None -> igood (IErr, c, s1).
 Proof. auto. Qed.
 Lemma igood_panic {St} (c : St) k s1 : good (Panic k, s1) -> igood (IPanic k, c, s1).
-Proof. intros (_ & G1 & G2). split; intros ->; [apply G1|apply G2]; reflexivity. Qed.
+Proof. intros (_ & G1 & G2 & G3). repeat split; intros ->; [apply G1|apply G2|apply G3]; reflexivity. Qed.
 
 Lemma sep_item_good m a lo trail ctx c b s : igood (sep_item run m a lo trail ctx c b s).
 Proof.
@@ -132,19 +132,19 @@ Qed.
 Lemma it_next_good : forall i m ctx its s, igood (it_next spn run m i ctx its s).
 Proof.
   induction i as [a lo hi|a sep lo hi lead trail|j IHj|f j IHj|f j IHj|a|a lo hi ck]; intros m ctx its s; cbn [it_next].
-  - destruct its; try (cbn; split; discriminate).
+  - destruct its; try (cbn; repeat split; discriminate).
     pose proof (rep_next_good m a lo hi ctx n s) as G. destruct (rep_next run m a lo hi ctx n s) as [[[] c'] s1]; exact G.
-  - destruct its; try (cbn; split; discriminate).
+  - destruct its; try (cbn; repeat split; discriminate).
     pose proof (sep_next_good m a sep lo hi lead trail ctx n s) as G.
     destruct (sep_next run m a sep lo hi lead trail ctx n s) as [[[] c'] s1]; exact G.
-  - destruct its; try (cbn; split; discriminate).
+  - destruct its; try (cbn; repeat split; discriminate).
     pose proof (IHj m ctx its s) as G. destruct (it_next spn run m j ctx its s) as [[[] js'] s1]; exact G.
   - pose proof (IHj m ctx its s) as G. destruct (it_next spn run m j ctx its s) as [[[] js'] s1]; exact G.
   - pose proof (IHj m ctx its s) as G. destruct (it_next spn run m j ctx its s) as [[[] js'] s1]; exact G.
-  - destruct its; try (cbn; split; discriminate). destruct b; [exact I|].
+  - destruct its; try (cbn; repeat split; discriminate). destruct b; [exact I|].
     pose proof (HG m a ctx s) as G. destruct (run m a ctx s) as [[] s1]; cbn [fst snd] in G;
       [exact I | exact I | apply igood_panic; exact G | exact I].
-  - destruct its; try (cbn; split; discriminate).
+  - destruct its; try (cbn; repeat split; discriminate).
     + pose proof (rep_next_good m a lo0 hi0 ctx n s) as G. destruct (rep_next run m a lo0 hi0 ctx n s) as [[[] c'] s1]; exact G.
     + pose proof (HG m (TryMap PFalse FId k Empty) ctx s) as G.
       destruct (run m (TryMap PFalse FId k Empty) ctx s) as [[] s1]; cbn [fst snd] in G;
@@ -411,7 +411,7 @@ Qed.
 (* the top level always reports a failure through the error list *)
 Theorem run_top_total n m g :
   match run_top no_quirks K toks spn n m g with
-  | TPanic k => k <> PUnwrapRecovery /\ k <> PUnwrapMapErr
+  | TPanic k => k <> PUnwrapRecovery /\ k <> PUnwrapMapErr /\ k <> PUnwrapInputRef
   | TRes None errs => errs <> []
   | _ => True
   end.
@@ -419,7 +419,7 @@ Proof.
   unfold run_top. pose proof (go_good n m (ThenIgnore g End) env0 init_st) as G.
   destruct (go n m (ThenIgnore g End) env0 init_st) as [[] s1]; cbn [fst snd] in G; auto.
   - destruct (map snd (sec s1)); discriminate.
-  - destruct G as (_ & G1 & G2). split; intros ->; [apply G1|apply G2]; reflexivity.
+  - destruct G as (_ & G1 & G2 & G3). repeat split; intros ->; [apply G1|apply G2|apply G3]; reflexivity.
 Qed.
 
 End Total.
